@@ -2,7 +2,7 @@ import GV.Lib.Line
 import GV.Model.ValueConservation
 /-
   op:  vc <era> <valid> <kd> <pd> <dd> <fee> <don> item*      (see harness/c27.go)
-  out: pure=<1|0> vc=<ok|vnc|baddep> bad=<0|1> dep=<0|1>  |  decode-err
+  out: pure=<1|0> next=<ok|vnc|bad|-> vc=<ok|vnc|baddep> bad=<0|1> dep=<0|1>  |  decode-err
 -/
 namespace GV.Drv.C27
 open GV.Line GV.Model.ValueConservation
@@ -46,6 +46,8 @@ def parseCert (p : List String) : Option Cert :=
   match p with
   | ["sreg"] => some .sreg | ["sdereg"] => some .sdereg | ["sdeleg"] => some .sdeleg
   | ["pret"] => some .pret | ["vdeleg"] => some .vdeleg
+  | ["gen"] => some .genesis
+  | ["mir", _, a] => (parseNat? a).map .mir
   | ["preg", st, id] => do
     let id ← parseNat? id
     if st = "n" then some (.preg true id) else if st = "o" then some (.preg false id)
@@ -97,7 +99,7 @@ def parseItems : List String → Acc → Option Acc
     | _ => none
 
 def legacy : Cert → Bool
-  | .sreg | .sdereg | .sdeleg | .pret | .preg _ _ | .pregRetiring _ => true
+  | .sreg | .sdereg | .sdeleg | .pret | .preg _ _ | .pregRetiring _ | .genesis | .mir _ => true
   | _ => false
 
 def handle (line : String) : GV.Line.Out :=
@@ -116,6 +118,7 @@ def handle (line : String) : GV.Line.Out :=
       -- shapes the era cannot express
       if era ≤ 2 && (!(ids t).isEmpty || acc.mint.isSome) then badOp
       else if era ≤ 5 && (!(acc.certs.all legacy) || !acc.props.isEmpty || don ≠ 0) then badOp
+      else if era ≥ 6 && acc.certs.any (fun c => match c with | .genesis => true | .mir _ => true | _ => false) then badOp
       else if era ≤ 3 && (!valid || !acc.coll.isEmpty) then badOp
       else if era ≤ 4 && (acc.collRet.isSome || acc.totalColl.isSome) then badOp
       -- a Dijkstra transaction cannot encode is_valid = false
@@ -125,13 +128,19 @@ def handle (line : String) : GV.Line.Out :=
         | .ok => "ok" | .notConserved => "vnc" | .badDeposit => "baddep"
       -- the model is a pure function: a second validation gives the same verdict and
       -- leaves every reported value unchanged (`pure=1`), which is what the op checks of the code
-      let model := s!"pure=1 vc={v} bad={boolStr (badInputs t)} dep={boolStr (certDepositsBad t)}"
+      -- follow-up transaction spending everything `t` produced: balanced, all inputs resolve
+      let fu := followUp t
+      let next := if (producedUtxo t).isEmpty then "-"
+        else if badInputs fu then "bad" else if rule fu == .ok then "ok" else "vnc"
+      let model := s!"pure=1 next={next} vc={v} bad={boolStr (badInputs t)} dep={boolStr (certDepositsBad t)}"
       -- spec: the ledger formula. An unresolvable input must be rejected by some rule;
       -- otherwise a balance that is not conserved must be rejected by one of the rules.
       let spec :=
-        if badInputs t then "pure=1 vc=ok bad=1*||pure=1 vc=vnc bad=1*||pure=1 vc=baddep bad=1*"
-        else if !specConserved t then "pure=1 vc=vnc*||pure=1 vc=baddep*||pure=1 vc=ok bad=0 dep=1"
-        else "pure=1 *"
+        -- across transactions: what was produced is exactly the outputs (next=ok, or - if nothing)
+        let pf := s!"pure=1 next={if (producedUtxo t).isEmpty then "-" else "ok"} "
+        if badInputs t then s!"{pf}vc=ok bad=1*||{pf}vc=vnc bad=1*||{pf}vc=baddep bad=1*"
+        else if !specConserved t then s!"{pf}vc=vnc*||{pf}vc=baddep*||{pf}vc=ok bad=0 dep=1"
+        else s!"{pf}*"
       let cls :=
         if clsCertAmount t then "cert-amount"
         else if clsZeroPolicyMint t then "zero-policy-mint" else ""
